@@ -271,8 +271,10 @@ impl<'a> Docs<'a> {
                         format!("#raw(\"{}   \n second line zqni{}x{}  \")\n", pad, self.seed % 9973, id).into()
                     }
                     _ => {
-                        let pad = "y".repeat(self.rng.range(50, 62));
-                        format!("#f(```\n{}   \nzqni{}x{}\n```)\n", pad, self.seed % 9973, id).into()
+                        // confirmed on the pinned tree (`clisim nonidem`): 40-60 characters, then 70
+                        // blanks, inside multi-line raw text two calls deep
+                        let pad = "y".repeat(self.rng.range(40, 60));
+                        format!("#figure(box(`{}{}\nzqni{}x{}`))\n", pad, " ".repeat(70), self.seed % 9973, id).into()
                     }
                 }
             }
